@@ -84,8 +84,11 @@ def check_print(P, ctx):
         ctx.undecided(rule, 'fetch', s, 'argument fetch not found')
         return
     av = ('local', fetch[0]['decl']['name'])
-    branches = [t for t in tests if t is not term[0] and fetch[0]['id'] in g.reach_from(g.entry) and t[0]['id'] in g.reach_from(fetch[0]['id']) and
-                t[0]['line'] > fetch[0]['line']]
+    # the tests that follow the fetch within one round of the scanning loop (reached from it without passing a loop header again);
+    # source line numbers are not used: code spliced back from a helper carries the helper's lines
+    heads = [n['id'] for n in g.live() if n['kind'] == 'join' and n.get('loop')]
+    after_fetch = g.reach_from(fetch[0]['id'], cut_nodes=heads)
+    branches = [t for t in tests if t is not term[0] and fetch[0]['id'] in g.reach_from(g.entry) and t[0]['id'] in after_fetch]
     handled = {}
     posv = ('param', 1)
     for (cn, letters, pol) in branches:
